@@ -237,7 +237,7 @@ func init() {
 	c13Overlay := append(append([]Inject{}, msgOverlay...), Inject{RepoRel: "internal/remoting/zz_verif_export.go", Src: "overlay/remoting_export.go.txt"})
 	registry["C13"] = &Check{
 		Level: "fault_enumeration",
-		Rule:  "decoders: for each sampled valid encoding (message and envelope encoding of a generated value of a registered type) EVERY truncation and EVERY single-byte replacement by {0x00,0x01,0x7f,0x80,0xff,+1,-1,space,tab,newline,'/',':','%','@'} (positions strided above 600 bytes) plus length fields overwritten with hostile constants, splices and random bytes are fed to DecodeEnvelopWithRemoting (also followed by the reference rebuilding of HandleRemotingEnvelop), Reader.ReadMessage, ReadVersionVector and (sampled) Handshake.Wait, with and without a Codec; every registered reader on crafted bodies; typed Reader.Read into destination types drawn from a grammar (incl. unsupported kinds) with a sentinel-filled destination. Encoders: values of types from a grammar that includes int, uint, uintptr, complex, map, chan, func, named scalars, nil interfaces, nil pointers at every depth; nil, non-pointer, typed-nil and nil-field messages with and without a Codec. Oracle: value or error - no panic, no worker death, allocation <= 64 x input + 16 MiB, destination unchanged on error. Non-trivial = every mutation case; typed reads / reader bodies with >= 4/8 input bytes. Distinct = hash of the case description. Frame level: the connection actor's own frame reader (overlay accessor to onReadConn, a pipe as the connection) is fed streams of 1-4 frames whose length fields are the exact length, every hostile 32-bit constant, off-by-one values and the neighbourhood of the 4 MiB limit, with valid, truncated or random bodies; oracle: no panic, memory bounded by the frame limit per frame, valid frames in front of the first hostile one reach the envelope handler.",
+		Rule:  "decoders: for each sampled valid encoding (message and envelope encoding of a generated value of a registered type) EVERY truncation and EVERY single-byte replacement by {0x00,0x01,0x7f,0x80,0xff,+1,-1,space,tab,newline,'/',':','%','@'} (positions strided above 600 bytes) plus length fields overwritten with hostile constants, splices and random bytes are fed to DecodeEnvelopWithRemoting (also followed by the reference rebuilding of HandleRemotingEnvelop), Reader.ReadMessage, ReadVersionVector and (sampled) Handshake.Wait, with and without a Codec; every registered reader on crafted bodies; typed Reader.Read into destination types drawn from a grammar (incl. unsupported kinds) with a sentinel-filled destination. Encoders: values of types from a grammar that includes int, uint, uintptr, complex, map, chan, func, named scalars, nil interfaces, nil pointers at every depth; nil, non-pointer, typed-nil and nil-field messages with and without a Codec. Oracle: value or error - no panic, no worker death, allocation <= 64 x input + 16 MiB, destination unchanged on error. Non-trivial = every mutation case; typed reads / reader bodies with >= 4/8 input bytes. Distinct = hash of the case description. Frame level: the connection actor's own frame reader (overlay accessor to onReadConn, a pipe as the connection) is fed streams of 1-4 frames whose length fields are the exact length, every hostile 32-bit constant, off-by-one values and the neighbourhood of the 4 MiB limit, with valid, truncated or random bodies; oracle: no panic, memory bounded by the frame limit per frame, valid frames in front of the first hostile one reach the envelope handler. Encode unit, added: exported ActorRef fields hold a nil *actor.Ref (typed nil) in one draw of six.",
 		Assumptions: []string{
 			"allocation is measured with runtime/metrics /gc/heap/allocs:bytes around each decode (large allocations are accounted immediately)",
 			"destination types with zero wire size per element ([]struct{}) are not generated: a transmitted count then drives a loop that consumes no input; no message of the library has such a field",
@@ -266,7 +266,7 @@ func init() {
 	}
 
 	registry["C03"] = &Check{
-		Rule: "world scenarios: trees of 1-5 actors with drawn supervision, providers, failing OnLaunch / restart hooks; scripts of 1-10 operations (tell with nested programs: tell, panic, Failed, kill, stash/unstash(n), spawn) where every tell draws its target (incl. paths that never existed) and the provenance of the reference (ref returned by ActorOf, Clone, ParseRef, CreateRef, FindActor); sequential or racing (1 in 4); 1 in 10 cases runs the whole script against an already stopped system. Oracle (conservation, evaluated at quiescence after all timers expired): every user message id handed to Tell ends in exactly one of {handled once, in the stash, one dead letter}; after Stop: no handler runs and the case becomes quiescent (bounded work). Non-trivial = a send whose target was not plainly running at send time (never existed / terminated / paused / zombie) or whose reference was not the cached one. Distinct = hash of the scenario. Unit window (generator-owned schedule): the termination / restart chain of one actor (top level or a child, with 0-2 children; kill, graceful kill, restart, failure answered by Stop, kill of its parent) is parked at a drawn statement boundary of killed_handler.go (window points inserted into a copy at check time); meanwhile and afterwards it is told through every kind of reference (spawn ref, clone, parsed, created, FindActor), watched, killed again, looked up, and its name is spawned again; every one of those user messages must end up processed (by the actor, the restarted actor or the successor) or dead-lettered, exactly once. Non-trivial there = the point was reached.",
+		Rule: "world scenarios: trees of 1-5 actors with drawn supervision, providers, failing OnLaunch / restart hooks; scripts of 1-10 operations (tell with nested programs: tell, panic, Failed, kill, stash/unstash(n), spawn) where every tell draws its target (incl. paths that never existed) and the provenance of the reference (ref returned by ActorOf, Clone, ParseRef, CreateRef, FindActor); sequential or racing (1 in 4); 1 in 10 cases runs the whole script against an already stopped system. Oracle (conservation, evaluated at quiescence after all timers expired): every user message id handed to Tell ends in exactly one of {handled once, in the stash, one dead letter}; after Stop: no handler runs and the case becomes quiescent (bounded work). Non-trivial = a send whose target was not plainly running at send time (never existed / terminated / paused / zombie) or whose reference was not the cached one. Distinct = hash of the scenario. Unit window (generator-owned schedule): the termination / restart chain of one actor (top level or a child, with 0-2 children; kill, graceful kill, restart, failure answered by Stop, kill of its parent) is parked at a drawn statement boundary of killed_handler.go (window points inserted into a copy at check time); meanwhile and afterwards it is told through every kind of reference (spawn ref, clone, parsed, created, FindActor), watched, killed again, looked up, and its name is spawned again; every one of those user messages must end up processed (by the actor, the restarted actor or the successor) or dead-lettered, exactly once. Non-trivial there = the point was reached. Stash clause, restarted actors: an actor that was spawned once, was restarted and is running at the end still holds (white-box stash length) every message it stashed and never got back, unless that message was published as a dead letter (the stash belongs to the actor, not to the instance).",
 		Assumptions: []string{
 			"the documented zombie exception: a message sent to an actor that became a zombie in the run is exempt from the lost clause",
 			"target state classes are derived from the behaviour trace and event stream up to the send; in racing mode the interleaving is the Go scheduler's",
@@ -318,7 +318,7 @@ func init() {
 	}
 
 	registry["C04"] = &Check{
-		Rule: "virtual time (synctest): 2-4 actors, 1-8 Asks from the system or from actors, issued at 0-3 ms, timeouts 1-5 ms, the target replying after a delay drawn around the timeout (0, t-1, t, t+1, any), never, twice or with an error value; 1-4 Result/Wait callers per future; Future.PipeTo with 1-3 forwarders at a drawn instant (before, at, after completion); ActorContext.PipeTo; Close(err) at a drawn instant; askers / targets / forwarders terminated at drawn instants (immediate or poison kill; a kill that abandons a restart waiting for a slow child; a kill that releases a zombie; a supervisor's Stop decision); in a third of the cases the system and some actors have their own default Ask timeout (1-6 ms) and Asks are issued without a timeout argument; a second Future.PipeTo call with an overlapping forwarder set right after the first. A reference model computes the earliest completing cause per Ask (ties accept either); oracle: every waiter returned, at exactly the model's virtual instant, with the model's value (own reply id, timeout not before t, actor-dead), all waiters agree, every live forwarder got exactly one matching PipeResult, and the white-box future tables are empty afterwards. Real clock (-race, real threads): 4-16 goroutines x 200 Asks with timeouts 1 ns - 50 ms, PipeTo racing the completion from another goroutine, askers killed while their futures complete; oracle: own reply or timeout, one PipeResult per piped future, tables empty, no race report, process alive. Non-trivial = two completion causes within 1 ms of each other (virtual) / every real-clock round. Distinct = hash of the case. Virtual unit, added: an actor that only asks may be killed and spawned again under its name at the same instant; its later asks are issued by the new incarnation while replies to the old one are still due (a reply must never complete a request of the new incarnation). Unit slowfwd (real clock, remoting enabled): a pending future is piped to a forwarder on a system that refuses connections (the delivery is retried with back-off for seconds on the completing goroutine), then completes by timeout, reply or Close; its 1-3 waiters must return when it completes, not when the delivery ends.",
+		Rule: "virtual time (synctest): 2-4 actors, 1-8 Asks from the system or from actors, issued at 0-3 ms, timeouts 1-5 ms, the target replying after a delay drawn around the timeout (0, t-1, t, t+1, any), never, twice or with an error value; 1-4 Result/Wait callers per future; Future.PipeTo with 1-3 forwarders at a drawn instant (before, at, after completion); ActorContext.PipeTo; Close(err) at a drawn instant; askers / targets / forwarders terminated at drawn instants (immediate or poison kill; a kill that abandons a restart waiting for a slow child; a kill that releases a zombie; a supervisor's Stop decision); in a third of the cases the system and some actors have their own default Ask timeout (1-6 ms) and Asks are issued without a timeout argument; a second Future.PipeTo call with an overlapping forwarder set right after the first. A reference model computes the earliest completing cause per Ask (ties accept either); oracle: every waiter returned, at exactly the model's virtual instant, with the model's value (own reply id, timeout not before t, actor-dead), all waiters agree, every live forwarder got exactly one matching PipeResult, and the white-box future tables are empty afterwards. Real clock (-race, real threads): 4-16 goroutines x 200 Asks with timeouts 1 ns - 50 ms, PipeTo racing the completion from another goroutine, askers killed while their futures complete; oracle: own reply or timeout, one PipeResult per piped future, tables empty, no race report, process alive. Non-trivial = two completion causes within 1 ms of each other (virtual) / every real-clock round. Distinct = hash of the case. Virtual unit, added: an actor that only asks may be killed and spawned again under its name at the same instant; its later asks are issued by the new incarnation while replies to the old one are still due (a reply must never complete a request of the new incarnation). Unit slowfwd (real clock, remoting enabled): a pending future is piped to a forwarder on a system that refuses connections (the delivery is retried with back-off for seconds on the completing goroutine), then completes by timeout, reply or Close; its 1-3 waiters must return when it completes, not when the delivery ends. Real-clock unit, added: a PipeResult that carries neither the reply nor an error is a violation (every future of the unit completes with one of them).",
 		Assumptions: []string{
 			"timeouts are > 0 (non-positive values are documented as 'no timer')",
 			"the real-clock unit samples thread interleavings; the race detector only reports races that occur in an executed schedule",
@@ -365,7 +365,7 @@ func init() {
 	}
 
 	registry["C10"] = &Check{
-		Rule:        "real threads, real clock, -race: per round 4-32 goroutines x 150-400 operations drawn (from the round's seed) from System.ActorOf, Tell, Ask + Result/Wait from two goroutines, Kill (poison or not), FindActor, Ref.Clone/String, messages that make actors spawn 1-3 children / panic / kill themselves, event-stream Publish / Subscribe / Unsubscribe from outside and from actors; the system strategy is one of Restart / Stop / Resume / graceful variants, one-for-one or one-for-all. Oracle: the process survives (worker death = verdict), zero race-detector reports (each reduced to the pair of vivid functions), own replies only, and at quiescence (registry unchanged over 5 polls) the tree is consistent: registry == set reachable from the root through child tables, every child's parent registered, nobody registered while terminated / terminating / paused; Stop succeeds. Non-trivial = a round with >= 2 goroutines and >= 1 kill overlapping spawns. Distinct = hash of (seed, round).",
+		Rule:        "real threads, real clock, -race: per round 4-32 goroutines x 150-400 operations drawn (from the round's seed) from System.ActorOf, Tell, Ask + Result/Wait/Close from three goroutines, Ask + Future.PipeTo from a second goroutine racing reply / timeout / Close (forwarders are three actors outside the pool of victims), Kill (poison or not), FindActor, Ref.Clone/String/Equals/GetPath/GetAddress/ToActorRefs on shared reference objects, messages that make actors spawn 1-3 children / panic / kill themselves, event-stream Publish / Subscribe / Unsubscribe from outside and from actors; the system strategy is one of Restart / Stop / Resume / graceful variants, one-for-one or one-for-all. Oracle: the process survives (worker death = verdict), zero race-detector reports (each reduced to the pair of vivid functions), own replies only, every forwarder received exactly one PipeResult per piped future (no successful result twice), and at quiescence (registry unchanged over 5 polls) the tree is consistent: registry == set reachable from the root through child tables, every child's parent registered, nobody registered while terminated / terminating / paused; Stop succeeds. Non-trivial = a round with >= 2 goroutines and >= 1 kill overlapping spawns. Distinct = hash of (seed, round).",
 		Assumptions: []string{"dynamic race detection on sampled schedules: it reports only races that occur in an executed schedule", "quiescence is detected by polling the registry; a round that does not settle in 30 s is not judged for tree consistency (noted in evidence)"},
 		Units: []Unit{
 			{Name: "stress", Pkg: "c10", Run: "^TestC10Stress$", Race: true, QuickShards: 4, ThoroughShards: 8, CaseFile: true, CrashOracle: "no-crash", Inject: actorOverlay, QuickTimeout: 15 * time.Minute, ThoroughTimeout: 60 * time.Minute},
@@ -373,7 +373,7 @@ func init() {
 	}
 
 	registry["C11"] = &Check{
-		Rule:        "two real systems on loopback TCP (fresh per case, real clock) with the generator's byte-level proxy between sender and receiver: 1-4 concurrent senders x bursts of 1-600 (2000 in thorough) messages with body sizes from {0,1,2,100,1000,4090,4094..4097,5000,65535,70000, 1 MiB, 4 MiB-1000, 4 MiB-400 (the envelope adds up to ~140 bytes)}, every k-th message an Ask (reply must come back), optionally a burst in the other direction, in one case of three every k-th Tell (k in 1,2,3,7) a message the receiving side's registered reader rejects (it cannot be delivered; everything around it must be, on the same connection); the proxy re-chunks the sender's byte stream by a drawn plan: frame-exact, 1-byte writes, 2-50 frames coalesced into one write, every frame split at a drawn offset 1-12, fixed chunks of 1-4096 bytes; two further shapes: frames whose announced length is exactly 4 MiB-d for d in 1..8 (the body length is computed with the library's own envelope encoder) alternating with tiny ones, and concurrent first contact (2-6 goroutines released together as the very first traffic towards the peer, sender 0 starting with a 70 KB-2 MiB message followed by tiny ones; also a unit of its own); plus fixed regression shapes incl. a connection that has been idle for 10.6 s. Loss is decided without a timeout oracle: after the burst, fence messages are sent one at a time on the idle link; once one is processed everything before it has been consumed (TCP order); if none arrives and the receiver reported nothing, the case is inconclusive (not counted). Oracle: per sender exactly 0..n-1 in order, byte-identical; every Ask got the reply to its own request; the sender reference seen by the receiver is the sending system; no RemotingMessageDecodeFailedEvent; an idle connection is not torn down by the library. Non-trivial = the proxy made at least one write that ended inside a frame or contained a frame boundary, or the case is a near-limit or concurrent-first-contact one. Distinct = hash of the case.",
+		Rule:        "two real systems on loopback TCP (fresh per case, real clock) with the generator's byte-level proxy between sender and receiver: 1-4 concurrent senders x bursts of 1-600 (2000 in thorough) messages with body sizes from {0,1,2,100,1000,4090,4094..4097,5000,65535,70000, 1 MiB, 4 MiB-1000, 4 MiB-400 (the envelope adds up to ~140 bytes)}, every k-th message an Ask (reply must come back), optionally a burst in the other direction, in one case of three every k-th Tell (k in 1,2,3,7) a message the receiving side's registered reader rejects (it cannot be delivered; everything around it must be, on the same connection); the proxy re-chunks the sender's byte stream by a drawn plan: frame-exact, 1-byte writes, 2-50 frames coalesced into one write, every frame split at a drawn offset 1-12, fixed chunks of 1-4096 bytes; two further shapes: frames whose announced length is exactly 4 MiB-d for d in 1..8 (the body length is computed with the library's own envelope encoder) alternating with tiny ones, and concurrent first contact (2-6 goroutines released together as the very first traffic towards the peer, sender 0 starting with a 70 KB-2 MiB message followed by tiny ones; also a unit of its own); plus fixed regression shapes incl. a connection that has been idle for 10.6 s. Loss is decided without a timeout oracle: after the burst, fence messages are sent one at a time on the idle link; once one is processed everything before it has been consumed (TCP order); if none arrives and the receiver reported nothing, the case is inconclusive (not counted). Oracle: per sender exactly 0..n-1 in order, byte-identical; every Ask got the reply to its own request; the sender reference seen by the receiver is the sending system; no RemotingMessageDecodeFailedEvent; an idle connection is not torn down by the library. Non-trivial = the proxy made at least one write that ended inside a frame or contained a frame boundary, or the case is a near-limit or concurrent-first-contact one. Distinct = hash of the case. Added: in one case in four the path towards the receiver holds the dialler's handshake back for 5-60 ms and hands over in one piece whatever the dialler has sent by then (a conforming dialler sends nothing before the handshake is answered, so on a correct tree this is a delay); near-limit frames now include the largest legal frame, exactly 4 MiB.",
 		Assumptions: []string{"read boundaries at the receiver are influenced by the proxy's writes (with pauses), not dictated; the oracle does not depend on them", "real-time waits are patience only: a fence that never arrives without any receiver-side event makes the case inconclusive"},
 		Serial:      true,
 		Units: []Unit{
@@ -384,7 +384,7 @@ func init() {
 
 	registry["C14"] = &Check{
 		Level: "fault_enumeration",
-		Rule:  "two real systems on loopback with the generator's fault proxy (fresh per case): (1) a stream of 3-6 frames (bodies 0-1000 bytes) with the connection cut after a byte offset - in the enumeration unit EVERY offset of a fixed 4-frame stream (thorough) or every frame boundary +-2 and the first bytes (quick), in the random unit offsets drawn near boundaries and anywhere; (2) the next 1-5 connection attempts refused against a ReconnectLimit of 0-3 or a negative one (set through the public options struct; documented as 'less than 1 means no retry'); (3) the peer stopped and restarted on the same addresses between bursts; (4) an injected well-framed but undecodable body of 1-5000 bytes before a drawn frame; (4b) an injected well-framed envelope that decodes but cannot be routed (empty / malformed sender address, sender path without a slash, receiver path with blanks or of no actor, malformed receiver address); (5) an injected length prefix above the 4 MiB limit; (2b, also a unit of its own) two outages of the same peer: the first survived by retrying (1..limit refusals), traffic, then the connection dropped and 1..limit-1 attempts refused - one failed write plus those refusals stay within the limit, so no message may be given up and the last one must arrive; after every fault the proxy heals and the sender sends again. Oracle: the receiver's sequence is a subsequence of what was sent (no duplicate, no reordering, bodies byte-identical, nothing invented); refused attempts >= limit+1 => exactly one dead letter on the sending side and no delivery, fewer => delivered by a retry and no dead letter; after an undecodable body or an unroutable envelope every real frame of the same connection is delivered; after any fault the link recovers (a probe is delivered within 8 attempts) and every message sent after that is delivered; no message is dead-lettered twice. (6) Tell with the peer unreachable: the caller's goroutine is looked for in the reconnect loop by a stack scan (the property's own observation point). Non-trivial = the cut fell strictly inside a frame, or a retry / refusal / injection / restart happened. Distinct = hash of the case.",
+		Rule:  "two real systems on loopback with the generator's fault proxy (fresh per case): (1) a stream of 3-6 frames (bodies 0-1000 bytes) with the connection cut after a byte offset - in the enumeration unit EVERY offset of a fixed 4-frame stream (thorough) or every frame boundary +-2 and the first bytes (quick), in the random unit offsets drawn near boundaries and anywhere; (2) the next 1-5 connection attempts refused against a ReconnectLimit of 0-3 or a negative one (set through the public options struct; documented as 'less than 1 means no retry'); (3) the peer stopped and restarted on the same addresses between bursts; (4) an injected well-framed but undecodable body of 1-5000 bytes before a drawn frame; (4b) an injected well-framed envelope that decodes but cannot be routed (empty / malformed sender address, sender path without a slash, receiver path with blanks or of no actor, malformed receiver address); (5) an injected length prefix above the 4 MiB limit; (2b, also a unit of its own) two outages of the same peer: the first survived by retrying (1..limit refusals), traffic, then the connection dropped and 1..limit-1 attempts refused - one failed write plus those refusals stay within the limit, so no message may be given up and the last one must arrive; after every fault the proxy heals and the sender sends again. Oracle: the receiver's sequence is a subsequence of what was sent (no duplicate, no reordering, bodies byte-identical, nothing invented); refused attempts >= limit+1 => exactly one dead letter on the sending side and no delivery, fewer => delivered by a retry and no dead letter; after an undecodable body or an unroutable envelope every real frame of the same connection is delivered; after any fault the link recovers (a probe is delivered within 8 attempts) and every message sent after that is delivered; no message is dead-lettered twice. (6) Tell with the peer unreachable: the caller's goroutine is looked for in the reconnect loop by a stack scan (the property's own observation point). Non-trivial = the cut fell strictly inside a frame, or a retry / refusal / injection / restart happened. Distinct = hash of the case. Added: undecodable injected frames whose announced length is the largest the receiver accepts (4 MiB) or one byte less, drawn and as two fixed cases.",
 		Assumptions: []string{
 			"frames that the kernel accepted before a cut may be lost (TCP): loss is allowed, only corruption / duplication / reordering is not",
 			"after an invalid length prefix the stream cannot be resynchronised: only no-crash, no corrupted delivery and recovery on a new connection are required",
